@@ -149,6 +149,20 @@ def case_of(raw, obs):
   return f"CObs {request_lit(raw, obs['info'])} {obs_lit(obs)}", None
 
 
+def degenerate_mean_fit(raw):
+  """a non-constant polynomial mean whose basis cannot be of full column rank on the data: a coordinate constant over the observations (all, or the
+  successful ones), or fewer observations than 1 + #coordinates"""
+  if raw.get("mean") not in ("linear", "custom") or not raw.get("points"):
+    return False
+  fails = raw.get("fails") or [False] * len(raw["points"])
+  for rows in ([p for p in raw["points"]], [p for p, f in zip(raw["points"], fails) if not f]):
+    if len(rows) < 1 + len(raw["points"][0]):
+      return True
+    if any(len({r[j] for r in rows}) <= 1 for j in range(len(rows[0]))):
+      return True
+  return False
+
+
 def correspondence(ctx):
   n = ctx.n(840, 6000)
   rng = ctx.rng
@@ -162,6 +176,11 @@ def correspondence(ctx):
       # a nugget of exactly 0 on noise-free data can make the Gram matrix numerically singular: the factorisation failing is not a
       # statement about the wiring (the cases that do factorise are compared in full)
       dist["skipped_singular_zero_nugget"] = dist.get("skipped_singular_zero_nugget", 0) + 1
+      continue
+    if obs.get("raised") == "LinAlgError" and degenerate_mean_fit(raw):
+      # a linear / custom polynomial mean on observations that all share the value of a coordinate (or are fewer than the terms): P'K^-1 P is
+      # singular, whether its factorisation raises is decided by rounding - no statement about the wiring either (quick tier, seed 44)
+      dist["skipped_singular_mean_fit"] = dist.get("skipped_singular_mean_fit", 0) + 1
       continue
     term, d = case_of(raw, obs)
     if d:
